@@ -911,10 +911,15 @@ class TypeGen:
             if self.av("C15-typearg-struct-string") and has_unnamed_struct(k_):
                 k_ = T_STRING
             i_ = Inst(g, [k_, self.type_arg(pkg, d + 1, tagged=g is G_PAIR)])
+            if g is G_PAIR and self.av("C15-trailing-zero-size") and zero_size(i_.args[1]):
+                i_ = Inst(g, [k_, T_INT])
             if g is G_M and not self.acceptable(Map(i_.args[0], i_.args[1])):
                 i_ = Inst(g, [i_.args[0], T_INT])
             return i_
-        return Inst(g, [self.type_arg(pkg, d + 1, tagged=g is G_WRAP)])
+        a_ = self.type_arg(pkg, d + 1, tagged=g is G_WRAP)
+        if g is G_TREE and self.av("C15-trailing-zero-size") and zero_size(a_):
+            a_ = T_STRING
+        return Inst(g, [a_])
 
     def rand_type(self, pkg, d=0, allow_named=True):
         """a type expression valid in pkg (constructs of open findings filtered out)"""
